@@ -126,6 +126,14 @@ CHECKS.update({
             "DESIGN.md §2 C19"),
 })
 
+CHECKS.update({
+    "C20": ("fault_enumeration",
+            "offline checkers over a recorded event log (one lock, one sequence number around the real FandangoIO.transmit / add_receive / clear_by_party / reset_parties) plus the yielded interaction tree: prefix validity (message automaton + derivation checker), attribution, per-channel conservation (delivered = consumed in order + buffered), exactly-once transmission, constraints on sent messages, no misbehaving remote message accepted",
+            "In-process protocol runs against a scripted peer (threads): valid / wrong type / constraint-violating / truncated / silent / unsolicited replies, random fragmentations with injected delays, one or two concurrently answering external parties, text and binary messages.",
+            "The peer lives in the same process; a run ended by the harness watchdog is inconclusive.",
+            "DESIGN.md §2 C20"),
+})
+
 NOT_YET = {}
 
 
